@@ -52,7 +52,8 @@ type verifC14Cfg struct {
 	limit   int64
 	readBuf int
 	chunk   int
-	mode    int // 0 ReadMessage, 1 NextReader + small reads
+	mode    int // 0 ReadMessage, 1 NextReader + small reads to EOF, 2 NextReader + io.ReadFull of exactly the message (no read that returns EOF), as ReadJSON or a length-prefixed consumer does
+	exact   []int // mode 2: the lengths of the messages the model delivers, in order
 }
 
 type verifC14Msg struct {
@@ -80,6 +81,7 @@ func verifC14Run(cfg verifC14Cfg, wire []byte, maxMsgs int) *verifC14Obs {
 		c.SetReadLimit(cfg.limit)
 	}
 	o := &verifC14Obs{}
+	nread := 0
 	read := func() (int, []byte, error) {
 		if cfg.mode == 0 {
 			return c.ReadMessage()
@@ -87,6 +89,14 @@ func verifC14Run(cfg verifC14Cfg, wire []byte, maxMsgs int) *verifC14Obs {
 		mt, r, err := c.NextReader()
 		if err != nil {
 			return mt, nil, err
+		}
+		if cfg.mode == 2 && nread < len(cfg.exact) {
+			data := make([]byte, cfg.exact[nread])
+			nread++
+			if _, err := io.ReadFull(r, data); err != nil {
+				return mt, data, err
+			}
+			return mt, data, nil // the reader is left exactly at the end of the message, EOF never seen
 		}
 		var data []byte
 		buf := make([]byte, 1+len(wire)%17)
@@ -231,6 +241,13 @@ func verifC14Eval(acc *verifC14Acc, cfg verifC14Cfg, frames []refws.Frame, wire 
 			r["wire_len"] = len(in)
 		}
 		return r
+	}
+	if cfg.mode == 2 {
+		cfg.exact = nil
+		for _, d := range exp.Messages {
+			cfg.exact = append(cfg.exact, len(d.Payload))
+		}
+		acc.Count("runs_reading_exactly_the_message_length", 1)
 	}
 	var o *verifC14Obs
 	if m.Guard("ws.read", nil, func() { o = verifC14Run(cfg, in, len(frames)) }) {
@@ -924,7 +941,7 @@ func TestVerif_C14_Random(t *testing.T) {
 		comp := r.Bool()
 		frames := verifC14RandTrace(r, role, comp, 40)
 		wire, _ := refws.Gen(frames)
-		cfg := verifC14Cfg{role: role, comp: comp, readBuf: r.Pick(1, 125, 126, 256, 1024, 4096), chunk: r.Pick(0, 0, 1, 2, 7), mode: r.Intn(2)}
+		cfg := verifC14Cfg{role: role, comp: comp, readBuf: r.Pick(1, 125, 126, 256, 1024, 4096), chunk: r.Pick(0, 0, 1, 2, 7), mode: r.Intn(3)}
 		lims := append([]int64{0, 0}, verifC14Limits(frames)...)
 		lims = append(lims, int64(r.Range(1, 300)))
 		cfg.limit = lims[r.Intn(len(lims))]
@@ -944,7 +961,7 @@ func TestVerif_C14_Random(t *testing.T) {
 		comp := i%4 >= 2
 		frames := verifC14LongTrace(r, role, comp, 70000)
 		wire, _ := refws.Gen(frames)
-		cfg := verifC14Cfg{role: role, comp: comp, readBuf: r.Pick(125, 1024, 4096), chunk: r.Pick(0, 0, 7), mode: r.Intn(2)}
+		cfg := verifC14Cfg{role: role, comp: comp, readBuf: r.Pick(125, 1024, 4096), chunk: r.Pick(0, 0, 7), mode: r.Intn(3)}
 		if i%4 == 1 {
 			cfg.limit = 100000 // above every message of the trace: the limit's bookkeeping runs, nothing may trip it
 		}
@@ -967,7 +984,7 @@ func TestVerif_C14_Random(t *testing.T) {
 			}
 		}
 		wire, _ := refws.Gen(frames)
-		cfg := verifC14Cfg{role: role, comp: comp, readBuf: r.Pick(125, 256), chunk: r.Pick(0, 1, 3), mode: r.Intn(2)}
+		cfg := verifC14Cfg{role: role, comp: comp, readBuf: r.Pick(125, 256), chunk: r.Pick(0, 1, 3), mode: r.Intn(3)}
 		lims := append([]int64{0, 0, 0}, verifC14Limits(frames)...)
 		cfg.limit = lims[r.Intn(len(lims))]
 		for cut := 0; cut <= len(wire); cut++ {
